@@ -142,7 +142,10 @@ def step (E : Env) (normalize : Bool) (s : State) (r : Rune) : State :=
       let doc := appendLine E normalize s.doc s.line linebuf
       let obuf := if linebuf ≠ [] then [] else s.obuf
       let doc := if normalize then doc else { doc with toks := doc.toks ++ [{ word := [nl], line := s.line }] }
-      { s with obuf := obuf, linebuf := [], line := s.line + 1, doc := doc }
+      -- `line++`, and once more for the deferred line break of a hyphen-joined word that ends
+      -- this line (`if deferredWord { deferredWord = false; line++ }`)
+      { s with obuf := obuf, linebuf := [], deferredWord := false,
+               line := s.line + 1 + (if s.deferredWord then 1 else 0), doc := doc }
   else if s.obuf = [] then startOrSkip E normalize s r
   else if E.isSpace r then
     if s.deferredEOL then s
